@@ -46,20 +46,25 @@ def run(W, chk):
     # structurally: the save is unconditional on the success path (same straight region): it must dominate the Send
     sends = A.aggs(r"BankMsg::Send$")
     chk.expect(len(sends) == 1, "PAIR-last-claimed", "send-anchor", "one reward Send", "%d Send constructors in Claim" % len(sends), A.entry)
-    st = A.calls_id(r"farm::commands::compute_start_from_epoch_for_address$")
-    okst = bool(st)
-    for e in st:
-        r = e.extra.get("ret") or EMPTY
-        m = opmap(r, lambda o, ops: "key" not in ops)
-        okst = okst and m.get("Store(LAST_CLAIMED_EPOCH)") == frozenset(["add"]) and m.get("Const(1_u64)") == frozenset(["add"])
-    chk.expect(okst, "PROV-claim-start", "compute_start_from_epoch_for_address", "next claim starts at last claimed + 1",
-               "claim start epoch <- %s" % [show(e.extra.get("ret") or EMPTY)[:200] for e in st], where(st[0]) if st else A.entry)
+    # the epochs iterated for payment start at last claimed + 1: the loop range's lower bound
+    rngs = [e for e in A.calls(r"RangeInclusive::<.*>::new$|RangeInclusive<.*>::new$") if "Store(LAST_CLAIMED_EPOCH)" in all_origins(e.extra["dargs"][0])]
+    okst = bool(rngs)
+    for e in rngs:
+        m = opmap(e.extra["dargs"][0], lambda o, ops: "key" not in ops)
+        lc_ops = m.get("Store(LAST_CLAIMED_EPOCH)", frozenset())
+        okst = okst and "add" in lc_ops and "Const(1_u64)" in m
+    chk.expect(okst, "PROV-claim-start", "Claim", "epoch ranges iterated for payment start from last claimed + 1",
+               "claim start epoch <- %s" % [show(e.extra["dargs"][0])[:200] for e in rngs], where(rngs[0]) if rngs else A.entry)
 
     # ---- one reward computation per LP denom: the denoms iterated are de-duplicated (no epoch paid twice)
     uniq_denoms(chk, A, "Claim")
 
     # ---- a user's weight for epoch e comes only from the snapshot keyed (user, lp, e) or is carried from zero
-    H = W.run_fn("farm_manager::farm::commands::compute_address_weights")
+    fid_w = "farm_manager::farm::commands::compute_address_weights"
+    if not W.has_fn(fid_w):
+        chk.skip("PROV-user-weight-source", "compute_address_weights", "helper not found under this name")
+        return window_and_keys(W, chk, A)
+    H = W.run_fn(fid_w)
     rd = [e for e in H.reads() if e.extra.get("item") == "LP_WEIGHT_HISTORY"]
     okr = bool(rd)
     for e in rd:
@@ -73,6 +78,10 @@ def run(W, chk):
                "weights are the snapshots keyed by the loop epoch, carried forward from zero",
                "user weights come from %s via %s" % (sorted(src), [(e.extra.get("sop"), show(e.extra.get("key", EMPTY))[:120]) for e in rd]), H.entry)
 
+    window_and_keys(W, chk, A)
+
+
+def window_and_keys(W, chk, A):
     # ---- window cuts
     ge_last = PredTrue("until >= last_claimed", rel(r"^(Query\(CurrentEpoch\)\.id|msg\.Claim\.until_epoch)$", ">=", r"^Store\(LAST_CLAIMED_EPOCH\)$"))
     claimed_before = VariantEdge("assume claimed before", r"^Store\(LAST_CLAIMED_EPOCH\)$", ["None"])
@@ -97,10 +106,10 @@ def run(W, chk):
             chk.expect(nxt or bounded, "PROV-weight-key", "%s@%s" % ("/".join(vp), e.span.rsplit(":", 1)[-1]),
                        "snapshot key epoch is current+1" if nxt else "snapshot key epoch is the validated until_epoch",
                        "weight snapshot written at epoch %s" % {k: sorted(v) for k, v in m.items()}, where(e))
-            if e.fn.endswith("sync_address_lp_weight_history"):
+            if bounded:
                 dep = dep_origins(e.extra.get("value", EMPTY))
                 need = set(m) & {"msg.Claim.until_epoch"}
-                chk.expect(bool(need) and need <= dep, "DEP-carried-snapshot", "farm_manager::farm::commands::sync_address_lp_weight_history",
+                chk.expect(bool(need) and need <= dep, "DEP-carried-snapshot", "Claim: snapshot re-written at until_epoch",
                            "the weight re-written at the claimed epoch depends on that epoch (it is the snapshot in effect there)",
                            "value saved at key epoch %s does not depend on it (depends on %s): a snapshot taking effect later is moved back to "
                            "until_epoch and earlier epochs are paid with it" % (sorted(m), sorted(o for o in dep if not o.startswith("Const("))[:8]), where(e))
@@ -129,8 +138,7 @@ def run(W, chk):
 
 
 def uniq_denoms(chk, A, lab):
-    loops = [e for e in A.calls(r"IntoIterator.*::into_iter$") if re.search(r"(farm::commands::claim|queries::query_rewards)$", e.fn)
-             and all_origins(vfield(e.extra["dargs"][0], "[*]")) == {"Store(POSITIONS).lp_asset.denom"}]
+    loops = [e for e in A.calls(r"IntoIterator.*::into_iter$") if all_origins(vfield(A.d(e.extra["dargs"][0]), "[*]")) == {"Store(POSITIONS).lp_asset.denom"}]
     ok = bool(loops) and all("#uniq" in A.d(e.extra["dargs"][0]).fields for e in loops)
     chk.expect(ok, "UNIQ-lp-denoms", lab, "rewards are computed once per distinct LP denom (the iterated denoms come from a set)",
                "the LP denoms iterated for reward computation are not de-duplicated (%d loops): a user with two positions in one LP token "
